@@ -81,6 +81,8 @@ def generate(rng, tier):
     for i in range(4 if tier == "quick" else 30):
         cfg = SL.gen_config(rng, global_window=False)
         ds = [SL.finish_dataset(SL.gen_dataset(rng, "quick", kind=0, offsets=False), cfg["mat"]) for _ in range(rng.choice([1, 2]))]
+        if i % 2 == 0 and len(ds) == 1:      # (every other case has two banks: its Files entry is one that has been read before)
+            ds.append(SL.finish_dataset(SL.gen_dataset(rng, "quick", kind=0, offsets=False), cfg["mat"]))
         for d in ds:
             d["x"] = [abs(v) + 0.05 for v in d["x"]]
             d["Qmin"] = d["Qmax"] = None        # keep every row: an empty merge has nothing to write
@@ -101,7 +103,15 @@ def run_impl(pystog, case):
             st.write_out_merged_sq("m.sq")
             q, sq = np.asarray(st.q_master[st.sq_title], float), np.asarray(st.sq_master[st.sq_title], float)
             st2 = pystog.StoG(**SL.stog_kwargs(case["cfg"]))
-            st2.read_dataset({"Filename": "m.sq", "ReciprocalFunction": "S(Q)"})
+            entry = {"Filename": "m.sq", "ReciprocalFunction": "S(Q)"}
+            if len(case["datasets"]) % 2 == 0:
+                # the same Files entry has served before, when the name held an older, shorter output: reading it again reads the file again
+                os.replace("m.sq", "m_new.sq")
+                with open("m.sq", "w") as fh:
+                    fh.write("2\n# an older run\n0.500000000000 1.250000000000\n0.600000000000 0.750000000000\n")
+                pystog.StoG(**SL.stog_kwargs(case["cfg"])).read_dataset(entry)
+                os.replace("m_new.sq", "m.sq")
+            st2.read_dataset(entry)
             st2.merge_data()
             q2, sq2 = np.asarray(st2.q_master[st2.sq_title], float), np.asarray(st2.sq_master[st2.sq_title], float)
             text = open("m.sq", "rb").read()
